@@ -6,6 +6,12 @@ import PyOak.Handle.Traverse
 import PyOak.Handle.XPath
 import PyOak.Handle.Encode
 import PyOak.Handle.Registry
+import PyOak.Handle.IsInstance
+import PyOak.Handle.Annot
+import PyOak.Handle.Origin
+import PyOak.Handle.SerOpts
+import PyOak.Handle.LegacyC20
+import PyOak.Handle.Visitor
 open PyOak PyOak.Sexp
 
 def dispatch (s : Sexp) : Sexp :=
@@ -19,6 +25,15 @@ def dispatch (s : Sexp) : Sexp :=
       else if cmd == "cid-eq" then handleCidEq args
       else if cmd == "node-eq" then handleNodeEq args
       else if cmd == "registry-history" then handleRegistry args
+      else if cmd == "isinst" then handleIsInst args
+      else if cmd == "construct" then handleConstruct args
+      else if cmd == "c11-chain" || cmd == "c11-classify" then handleAnnot cmd args
+      else if cmd.startsWith "o-" then handleOrigin cmd args
+      else if cmd == "c16" then PyOak.SerOpts.handleC16 args
+      else if cmd == "ldfs" || cmd == "lbfs" || cmd == "lgather" || cmd == "lcalc" || cmd == "lxpath" then
+        handleLegacyC20 cmd args
+      else if cmd == "transform" then handleTransform args
+      else if cmd == "dispatch" then handleDispatch args
       else none
     match r with
     | some x => x
